@@ -329,7 +329,11 @@ func shapeHB(face *font.Face, in input, sc language.Script) (glyphs int, kind, f
 	buf.AddRunes(in.Text, in.RunStart, in.RunEnd-in.RunStart)
 	var feats []harfbuzz.Feature
 	for _, f := range in.Features {
-		feats = append(feats, harfbuzz.Feature{Tag: ot.MustNewTag(f.Tag), Value: f.Value, Start: f.Start, End: f.End})
+		end := f.End
+		if end < 0 { // -1 = to the end of the buffer (a global feature when Start is 0)
+			end = harfbuzz.FeatureGlobalEnd
+		}
+		feats = append(feats, harfbuzz.Feature{Tag: ot.MustNewTag(f.Tag), Value: f.Value, Start: f.Start, End: end})
 	}
 	hbFont := harfbuzz.NewFont(face)
 	buf.Shape(hbFont, feats)
@@ -530,6 +534,39 @@ func main() {
 								reported[key] = true
 								enc.Encode(map[string]any{"fail": res.fail, "kind": res.kind, "what": res.fail, "input": in})
 							}
+						}
+					}
+				}
+			}
+		}
+	}
+	// deterministic scope for the fonts positioned through a 'kern' / 'kerx' table: natively LTR and RTL texts in both
+	// directions with kerning requested, switched off (kern=0) and ranged, at the harfbuzz.Buffer level (subtables that
+	// are skipped or processed against the buffer direction)
+	for _, ref := range fonts {
+		if strings.HasSuffix(ref.path, "+GPOS") {
+			continue
+		}
+		face := load(ref)
+		if face == nil || face.Font == nil || (len(face.Font.Kern) == 0 && len(face.Font.Kerx) == 0) {
+			continue
+		}
+		for _, tc := range []struct {
+			script string
+			text   []rune
+		}{{"Latn", []rune("AVA To")}, {"Hebr", []rune{0x05D0, 0x05D1, 0x05BC, 0x05D2, 0x0020, 0x05D3}}, {"Arab", []rune{0x0644, 0x0627, 0x0645, 0x064E, 0x0628}}} {
+			for dir := 0; dir < 2; dir++ {
+				for _, feats := range [][]hbFeat{nil, {{Tag: "kern", Value: 0, Start: 0, End: -1}}, {{Tag: "kern", Value: 1, Start: 1, End: 3}}, {{Tag: "kern", Value: 0, Start: 0, End: 2}}} {
+					in := input{Font: ref.name + ":" + ref.path, Text: tc.text, RunStart: 0, RunEnd: len(tc.text), Dir: dir, Script: tc.script, HB: true, Features: feats}
+					res := shapeOnce(face, in)
+					evals++
+					hist["kern-table-scope"]++
+					if res.fail != "" {
+						hist["fail:"+res.kind]++
+						key := res.kind + "|" + in.Font
+						if !reported[key] && len(reported) < 40 {
+							reported[key] = true
+							enc.Encode(map[string]any{"fail": res.fail, "kind": res.kind, "what": res.fail, "input": in})
 						}
 					}
 				}
